@@ -53,6 +53,12 @@ def run(ctx):
     res = ctx.tlc("Cascade", None, workers=16, cfg_text=CFG % 2, timeout=900)
     n, nt = replay(ctx, res, "pairs")
     counts = {"lists<=2": n}
+    # the page context: pairs of @page rules (and their margin-box rules) matching the first page
+    pres = ctx.tlc("Cascade", None, workers=4, timeout=600,
+                   cfg_text="CONSTANTS\n  MaxOcc = 0\n  StyleAttrSpec = 1000\n  NestedBeforeOwn = FALSE\nINIT PageInit\nNEXT PageStutter\nINVARIANTS PageOrderLaw EmitPage\nCHECK_DEADLOCK FALSE\n")
+    np_, _ = replay(ctx, pres, "pagectx")
+    counts["page-context pairs"] = np_
+    n += np_
     if ctx.tier == "thorough":
         res = ctx.tlc("Cascade", None, workers=8, cfg_text=(CFG % 3).replace("INIT Init", "INIT InitBuild"), simulate="num=1500", depth=12, timeout=900)
         n3, nt3 = replay(ctx, res, "triples")
@@ -63,7 +69,7 @@ def run(ctx):
     return ctx.finish("model_checking", {
         "exhaustive": True, "evaluations": n, "distinct_nontrivial": nt, "scenario_counts": counts,
         "rule": "every ordered list of <= 2 occurrences over 98 (carrier, importance, selector shape) combinations x hints on/off; "
-                "non-trivial = at least two occurrences compete; all distinct (one TLC initial state each)",
+                "non-trivial = at least two occurrences compete; all distinct (one TLC initial state each); every ordered pair of 8 page selectors matching the first page",
     }, assumptions=[
         "probe property is `color` on one element; a user-agent !important origin is not part of the property and not generated",
         "order of appearance is exercised across author sheets (document order), inside one rule (nested) and via @import position",
